@@ -17,12 +17,15 @@ MUTS = [
     ('M1 pricing: escalation counts one year more', 'src/geophires_x/Economics.py', 'Price[i] = Price[i] + ((i - EscalationStartYear) * EscalationRate)',
      'Price[i] = Price[i] + ((i - EscalationStartYear + 1) * EscalationRate)', 'C16', True),
     ('M2 PTC: inflation adjustment starts a year late', 'src/geophires_x/Economics.py', 'if ptc_inflation_adjusted and year > 0:', 'if ptc_inflation_adjusted and year > 1:', 'C16', True),
-    ('M3 total revenue: cumulative starts at the first operating year', 'src/geophires_x/Economics.py',
+    ('M3 cash flow: cumulative starts at the first operating year (in-place assembly of Economics.Calculate)', 'src/geophires_x/Economics.py',
+     "        for i in range(1, model.surfaceplant.plant_lifetime.value + model.surfaceplant.construction_years.value, 1):\n            self.TotalCummRevenue.value[i] = self.TotalCummRevenue.value[i-1] + self.TotalRevenue.value[i]",
+     "        for i in range(model.surfaceplant.construction_years.value, model.surfaceplant.plant_lifetime.value + model.surfaceplant.construction_years.value, 1):\n            self.TotalCummRevenue.value[i] = self.TotalCummRevenue.value[i-1] + self.TotalRevenue.value[i]", 'C04', True),
+    ('M3b dead code: CalculateTotalRevenue (not called by the module) changed', 'src/geophires_x/Economics.py',
      "    for i in range(1, plantlifetime + ConstructionYears, 1):\n        CummCashFlow[i] = CummCashFlow[i - 1] + CashFlow[i]\n    return CashFlow, CummCashFlow\n\n\ndef CalculateRevenue",
-     "    for i in range(ConstructionYears, plantlifetime + ConstructionYears, 1):\n        CummCashFlow[i] = CummCashFlow[i - 1] + CashFlow[i]\n    return CashFlow, CummCashFlow\n\n\ndef CalculateRevenue", 'C04', True),
+     "    for i in range(ConstructionYears, plantlifetime + ConstructionYears, 1):\n        CummCashFlow[i] = CummCashFlow[i - 1] + CashFlow[i]\n    return CashFlow, CummCashFlow\n\n\ndef CalculateRevenue", 'C04', False),
     ('M4 payback scan from index 0 again (defect F5)', 'src/geophires_x/Economics.py', 'for i in range(1, len(self.TotalCummRevenue.value), 1):', 'for i in range(0, len(self.TotalCummRevenue.value), 1):', 'C04', True),
-    ('M5 carbon: heat-only end-use credited with electricity', 'src/geophires_x/Economics.py', '            heat_energy_kwh = HeatkWhProduced[i - construction_years]\n        else:',
-     '            heat_energy_kwh = NetkWhProduced[i - construction_years]\n        else:', 'C04', True),
+    ('M5 carbon: electricity valued at the natural-gas intensity', 'src/geophires_x/Economics.py', 'elec_CO2_produced_lbs = electrical_energy_kwh * grid_CO2_intensity_lb_kwh',
+     'elec_CO2_produced_lbs = electrical_energy_kwh * natural_gas_CO2_intensity_lb_kwh', 'C04', True),
     ('M6 pressure: decline one step late', 'src/geophires_x/WellBores.py', 'pressure[timestep] = pressure[0] - (pressure_change_per_timestep * timestep)',
      'pressure[timestep] = pressure[0] - (pressure_change_per_timestep * (timestep - 1))', 'C15', True),
     ('M7 pressure: harmless rewrite (<= instead of < before writing the same value)', 'src/geophires_x/WellBores.py', 'if pressure[timestep] < initial_pressure_kPa:',
